@@ -147,3 +147,12 @@ Proof.
   unfold U.add, U.add_ok. change (8 * ((16 + 7) / 8)) with 16.
   rewrite wrap_id by (rewrite modulus_val; lia). split; [reflexivity|]. rewrite modulus_val. lia.
 Qed.
+
+(* ---- the attachment-capacity guards of send() (GENERATED) are the guards of the model Frag.send / Frag.go_frag ---- *)
+Lemma send_too_many_eq nfds : send_too_many nfds = (MAX_FDS_IN_CMSG <? nfds).
+Proof. unfold send_too_many. apply Z.gtb_ltb. Qed.
+
+Lemma send_too_many_frag_eq nfds : 0 <= nfds < 2 ^ 62 -> send_too_many_frag nfds = (MAX_FDS_IN_CMSG <? nfds + 1).
+Proof.
+  intros H. unfold send_too_many_frag, U.add. rewrite wrap_id by (rewrite modulus_val; lia). apply Z.gtb_ltb.
+Qed.
